@@ -98,6 +98,23 @@ func c09Mutants(tx *pb.Transaction, spec *hx.TxSpec, resp *protos.InvokeResponse
 		m.TxOutputs[payIdx].Amount = p.Add(p, big.NewInt(1)).Bytes()
 		add("fee-below-gas-used", m)
 	}
+	// stillCarries: do the mutant's outputs still contain every contract-originated output (as a
+	// multiset)? Then the mutant is an equally valid transaction (the payer merely re-routed own
+	// funds) and is not required to be rejected.
+	stillCarries := func(m *pb.Transaction) bool {
+		have := map[string]int{}
+		for _, o := range m.TxOutputs {
+			have[fmt.Sprintf("%s_%x_%d", o.ToAddr, o.Amount, o.FrozenHeight)]++
+		}
+		for _, o := range resp.UtxoOutputs {
+			k := fmt.Sprintf("%s_%x_%d", o.ToAddr, o.Amount, o.FrozenHeight)
+			if have[k] < 1 {
+				return false
+			}
+			have[k]--
+		}
+		return true
+	}
 	if n := len(resp.UtxoOutputs); n > 0 {
 		// contract-originated outputs are the last n outputs of the assembled transaction
 		first := len(tx.TxOutputs) - n
@@ -107,13 +124,17 @@ func c09Mutants(tx *pb.Transaction, spec *hx.TxSpec, resp *protos.InvokeResponse
 			thief = hx.Ring[(spec.From+1)%6].Address
 		}
 		m.TxOutputs[first].ToAddr = []byte(thief)
-		add("contract-transfer-redirected", m)
+		if !stillCarries(m) {
+			add("contract-transfer-redirected", m)
+		}
 		if a := new(big.Int).SetBytes(tx.TxOutputs[first].Amount); a.Cmp(big.NewInt(1)) > 0 && payIdx >= 0 {
 			m = c09Clone(tx)
 			p := new(big.Int).SetBytes(m.TxOutputs[payIdx].Amount)
 			m.TxOutputs[first].Amount = a.Sub(a, big.NewInt(1)).Bytes()
 			m.TxOutputs[payIdx].Amount = p.Add(p, big.NewInt(1)).Bytes()
-			add("contract-transfer-amount-lowered", m)
+			if !stillCarries(m) {
+				add("contract-transfer-amount-lowered", m)
+			}
 		}
 	}
 	if spec.ConAmt > 0 {
